@@ -242,7 +242,8 @@ bool OSSLRSA::sign(PrivateKey* privateKey, const ByteString& dataToSign,
 		// In case of raw RSA, the length of the input data must match the length of the modulus
 		OSSLRSAPrivateKey* osslKey = (OSSLRSAPrivateKey*) privateKey;
 
-		if (dataToSign.size() != osslKey->getN().size())
+		// (the size of the modulus in octets, not of the byte string it was imported as: that may carry leading zeros)
+		if (dataToSign.size() != osslKey->getOutputLength())
 		{
 			ERROR_MSG("Size of data to sign does not match the modulus size");
 
@@ -250,7 +251,7 @@ bool OSSLRSA::sign(PrivateKey* privateKey, const ByteString& dataToSign,
 		}
 
 		// Perform the signature operation
-		signature.resize(osslKey->getN().size());
+		signature.resize(osslKey->getOutputLength());
 
 		RSA* rsa = osslKey->getOSSLKey();
 
